@@ -282,6 +282,62 @@ pub fn near_tied(r: &mut Rng) -> LinearModel {
     m
 }
 
+/// A model whose `domain()` map is in a DIFFERENT order than `variables()` (what every Linearizer output looks like:
+/// columns sorted by name, domain in `define` order) with differently bounded variables and an objective that pushes
+/// every variable against a bound: reading the bounds by position instead of by name changes the answer.
+pub fn permuted_domain(r: &mut Rng, continuous_only: bool) -> LinearModel {
+    let n = 2 + r.below(3);
+    let names: Vec<String> = (0..n).map(|i| format!("v{}", i)).collect();
+    let mut types = vec![];
+    for i in 0..n {
+        let lo = (3 * i) as f64 - 4.0 + r.below(2) as f64;      // distinct, non-overlapping-ish boxes
+        let t = if !continuous_only && r.chance(1, 3) { VariableType::IntegerRange(lo as i32, lo as i32 + 1 + r.below(2) as i32) }
+                else if lo >= 0.0 && r.chance(1, 2) { VariableType::NonNegativeReal(lo, lo + 1.0 + r.below(2) as f64) }
+                else { VariableType::Real(lo, lo + 1.0 + r.below(2) as f64) };
+        types.push(t);
+    }
+    // permute the domain map: rotate or reverse (never the identity for n >= 2)
+    let mut order: Vec<usize> = (0..n).collect();
+    if r.chance(1, 2) { order.reverse(); } else { order.rotate_left(1 + r.below(n - 1)); }
+    let mut domain = indexmap::IndexMap::new();
+    for &i in &order {
+        domain.insert(names[i].clone(), rooc::model_transformer::DomainVariable::new(types[i].clone(), Default::default()));
+    }
+    let obj: Vec<f64> = (0..n).map(|_| if r.chance(1, 2) { 1.0 + r.below(3) as f64 } else { -1.0 - r.below(3) as f64 }).collect();
+    let mut rows = vec![];
+    for _ in 0..r.below(3) {
+        // loose rows (never active): the bounds decide
+        let cs: Vec<f64> = (0..n).map(|_| r.range(-1, 1) as f64).collect();
+        rows.push(rooc::LinearConstraint::new(cs, Comparison::LessOrEqual, 60.0));
+    }
+    let opt = if r.chance(1, 2) { OptimizationType::Min } else { OptimizationType::Max };
+    LinearModel::new_from_parts(obj, opt, r.range(-2, 2) as f64, rows, names, domain)
+}
+
+/// The same situation through the text pipeline: `define` order is not alphabetical, the Linearizer sorts the columns.
+pub fn from_text(r: &mut Rng) -> Option<(LinearModel, String)> {
+    let pool = ["zeta", "alpha", "mid", "beta", "omega"];
+    let n = 2 + r.below(3);
+    let mut names: Vec<&str> = pool[..n].to_vec();
+    if r.chance(1, 2) { names.reverse(); }
+    let mut src = String::new();
+    let sense = if r.chance(1, 2) { "min" } else { "max" };
+    let terms: Vec<String> = names.iter().map(|v| format!("{}{}*{}", if r.chance(1, 2) { "+ " } else { "- " }, 1 + r.below(3), v)).collect();
+    src.push_str(&format!("{} 0 {}\ns.t.\n", sense, terms.join(" ")));
+    src.push_str(&format!("    {} <= 50\n", names.join(" + ")));
+    src.push_str("define\n");
+    for (i, v) in names.iter().enumerate() {
+        let lo = 3 * i as i64 - 4 + r.below(2) as i64;
+        let hi = lo + 1 + r.below(2) as i64;
+        let ty = if r.chance(1, 4) { format!("IntegerRange({}, {})", lo, hi) } else { format!("Real({}, {})", lo, hi) };
+        src.push_str(&format!("    {} as {}\n", v, ty));
+    }
+    let p = rooc::RoocParser::new(src.clone());
+    let model = std::panic::catch_unwind(|| p.parse_and_transform(vec![], &indexmap::IndexMap::new()).ok()).ok().flatten()?;
+    let lin = std::panic::catch_unwind(|| rooc::Linearizer::linearize(model).ok()).ok().flatten()?;
+    Some((lin, src))
+}
+
 pub fn is_continuous(m: &LinearModel) -> bool {
     m.domain().values().all(|d| matches!(d.get_type(), VariableType::Real(_, _) | VariableType::NonNegativeReal(_, _)))
 }
